@@ -35,6 +35,7 @@ def run_generic(pid, tier, seed, mk_runs, which, nq, nt, rule):
             if pid == "C10":
                 p["recursive"] = p["recursive"]
             p["runs"] = mk_runs(ck.rng)
+            intergen.bound_contexts(ck.rng, p)
             ps.append(p)
         if k == 0 and pid == "C09":   # fixed regression cases (replays of earlier findings)
             import os
